@@ -83,6 +83,16 @@ CHECKS = {
           "comparing its table, shot count and echo line count with the extracted model.", "DESIGN.md §6 C17"),
    note="Trusted: Coq kernel; extraction; glue; hook H2 (draw file). --echo=none read as documented (always suppress).",
    technique="Coq proof (finite-map/table algebra, Q arithmetic) + extraction-based correspondence through the real CLI"),
+ "C19": dict(
+   level=("proof", "Coq theorems (axiom-free) on a model of module_loader.cpp over an abstract file system, for every tree, search-path list, "
+          "working directory and entry: a successful load lists each module once, places every imported module (symbol or wildcard, importer "
+          "excepted) before its importer, has checked that each declares the imported package, contains the entry and exactly one main; symbol "
+          "resolution returns the first root in the documented order (search paths first for bloch.*) that has the file; the traversal "
+          "terminates on every import graph (cyclic or not). Tied by random and hand-written trees written to disk and loaded through the public "
+          "ModuleLoader, comparing merged order or diagnostic class/category with the extracted model. Completeness of cycle detection (no false "
+          "cycle on DAGs) is covered by the correspondence only.", "DESIGN.md §6 C19"),
+   note="Trusted: Coq kernel; extraction; glue. std::filesystem canonicalisation, symlinks, '..' not modelled (generated trees are canonical).",
+   technique="Coq proof (DFS invariant with fuel, parameterised recursion) + extraction-based correspondence on real directory trees"),
  "C20": dict(
    level=("proof", "13 Coq theorems (axiom-free) over a model of parseSemVer/compareSemVer/hasLatest/the --update decision/parseChecksum/"
           "the 72h notice throttle, for all strings, all checksums.txt contents and all invocation histories; the model is tied to "
